@@ -217,10 +217,14 @@ class FastBuilder:
         self.vq = self.q.qubit_id
         self.conn.builder.subrt_pop_pending_subroutine()
 
-    def emit(self, axis, a):
+    def emit(self, axis, a, nd=None):
+        """nd = explicit (n, d) passed TOGETHER with the angle (documented as ignored then)"""
         try:
             with np.errstate(all="ignore"):
-                getattr(self.q, "rot_" + axis)(angle=a)
+                if nd is None:
+                    getattr(self.q, "rot_" + axis)(angle=a)
+                else:
+                    getattr(self.q, "rot_" + axis)(n=nd[0], d=nd[1], angle=a)
             sub = self.conn.builder.subrt_pop_pending_subroutine()
         except Exception as e:  # noqa
             try:
